@@ -203,6 +203,7 @@ func (o *functionOperator) Next(ctx context.Context) ([]model.StepVector, error)
 			continue
 		}
 
+		kept := 0
 		for i := range vector.Samples {
 			o.pointBuf[0].V = vector.Samples[i]
 			// Call function by separately passing major input and scalars.
@@ -212,9 +213,17 @@ func (o *functionOperator) Next(ctx context.Context) ([]model.StepVector, error)
 				StepTime:     vector.T,
 				ScalarPoints: o.scalarPoints[batchIndex],
 			})
+			// The function yields nothing for this sample (e.g. clamp with max < min).
+			if result.Point == InvalidSample.Point {
+				continue
+			}
 
-			vector.Samples[i] = result.V
+			vector.Samples[kept] = result.V
+			vector.SampleIDs[kept] = vector.SampleIDs[i]
+			kept++
 		}
+		vectors[batchIndex].Samples = vector.Samples[:kept]
+		vectors[batchIndex].SampleIDs = vector.SampleIDs[:kept]
 	}
 
 	return vectors, nil
